@@ -33,8 +33,8 @@
   least grid second whose hour, minute and second are listed).
   And `iter_eq_spec_minutely_byhour_byminute_partial`: MINUTELY with BYMINUTE and optional BYHOUR (in particular both
   together) under `reachableMM`.
-  Missing: BYEASTER
-  under WEEKLY (BYWEEKNO is covered under every frequency) and BYEASTER outside YEARLY, nth BYDAY with plain BYDAY (all of it inside D-C01a), BYWEEKNO with BYEASTER or
+  And `iter_eq_spec_byeaster_below_yearly_partial`: BYEASTER (−80..250, 1583..4099) under DAILY and every sub-daily family.
+  Missing: BYEASTER under WEEKLY and MONTHLY (BYWEEKNO is covered under every frequency), BYEASTER together with BYWEEKNO, nth BYDAY with plain BYDAY (all of it inside D-C01a), BYWEEKNO with BYEASTER or
   nth BYDAY.  Everything else below — including
   `iter_strictMono` for all seven frequencies — is proved for ALL rules / all argument sets, with no
   `Supported` hypothesis (so also inside the known-defect classes).
@@ -621,6 +621,25 @@ theorem iter_eq_spec_secondly_bysecond_partial (a : Args) (r : Rule) (sa : Secon
     ∃ m, n ≤ m ∧ m ≤ 172800 * n ∧ (iter r n).1 = Spec.RRule.occ a m :=
   iter_eq_spec_secondly_bysecond sa h n hle
 
+/-- **`iter_eq_spec`, proved portion, BYEASTER below YEARLY**: DAILY, HOURLY (with or without BYHOUR), MINUTELY (plain, BYMINUTE,
+    BYHOUR, both) and SECONDLY (plain, BYHOUR / BYMINUTE, BYSECOND) with BYEASTER offsets −80..250 (the complement of D-C01d),
+    no BYWEEKNO, every visited day inside 1583-01-01 .. 4099-12-31 (where C19 proves `easter.easter` canonical), everything else as
+    in the corresponding family without BYEASTER (any BYMONTH / BYMONTHDAY non-zero / BYYEARDAY / BYDAY / time parts / BYSETPOS /
+    COUNT / UNTIL; the same reachability hypotheses and the same `periodsPerTurn`).  One abstraction (Proofs/RRuleEFilter.lean):
+    `rebuild` keeps an invariant under which the BY-filter of a day is `simpleOk ∧ (date − Easter of its year ∈ BYEASTER)`, which
+    is the specification's `dateOk`; the family proofs are the ones without BYEASTER with that filter lemma.
+    (`Family.isEasterSub f`: `f` is one of dailyE … secondlyBysecondE; `SupportedBy` / `inRange` spell the hypotheses out.) -/
+theorem iter_eq_spec_byeaster_below_yearly_partial (a : Args) (r : Rule) (h : construct a = .ok r) (f : Family)
+    (_hf : f.isEasterSub = true) (hs : SupportedBy a f) (n : Nat) (hr : inRange a f n) :
+    ∃ m, n ≤ m ∧ m ≤ f.periodsPerTurn * n ∧ (iter r n).1 = Spec.RRule.occ a m :=
+  iter_eq_spec_supported a r h f hs n hr
+
+/-- … its DAILY instance spelled out: exactly the specification's recurrence set, period by period -/
+theorem iter_eq_spec_daily_easter_partial (a : Args) (r : Rule) (ea : DailyEArgs a) (h : construct a = .ok r) (n : Nat)
+    (hlo : 1583 ≤ a.dtstart.y) (hn : Spec.RRule.startOrd a + n * a.interval ≤ Cal.toOrdinal 4099 12 31) :
+    (iter r n).1 = Spec.RRule.occ a n :=
+  iter_eq_spec_daily_easter ea h n hlo hn
+
 /-- **`iter_eq_spec` for every supported argument set** — the summary of the family theorems above.
     `SupportedBy a f` (Spec/RRuleSupported.lean) is a decidable condition on the arguments alone, the union of
     the proved families: DAILY, WEEKLY (BYSETPOS only with the start on the week start = outside D-C01e),
@@ -770,6 +789,15 @@ example : SecondlyBSArgs { freq := 6, dtstart := dt 2024 1 1 9, interval := 7, b
 example : WeeknoMArgs { freq := 1, dtstart := dt 2024 1 1 9, byweekno := some [10, 20], byweekday := some [(0, 0)] } :=
   ⟨rfl, by decide, by decide, by decide, by intro x hx; simp at hx, rfl, by decide,
    ⟨[10, 20], rfl, by decide, ⟨by decide, by decide⟩⟩⟩
+-- a DailyEArgs instance: Good Friday and Easter Monday, scanned day by day; and the classifier on sub-daily BYEASTER rules
+example : DailyEArgs { freq := 3, dtstart := dt 2024 1 1 10, byeaster := some [-2, 1] } :=
+  ⟨rfl, by decide, by decide, rfl, by intro x hx; simp at hx, ⟨[-2, 1], rfl, by decide, by decide⟩⟩
+example : dates (construct { freq := 3, dtstart := dt 2024 1 1 10, byeaster := some [-2, 1] }) 500
+    = [(2024, 3, 29), (2024, 4, 1), (2025, 4, 18), (2025, 4, 21)] := by decide +kernel
+example : family { freq := 3, dtstart := dt 2024 1 1 10, byeaster := some [-2, 1] } = some .dailyE := by decide +kernel
+example : family { freq := 4, dtstart := dt 2024 1 1 10, interval := 6, byeaster := some [0], byminute := some [0, 30] }
+    = some .hourlyE := by decide +kernel
+example : Family.isEasterSub .hourlyE = true := rfl
 -- a WeeklyWArgs instance: weeks 1, 52 and the last week, from a week that straddles New Year (Mon 2024-12-30)
 example : WeeklyWArgs { freq := 2, dtstart := dt 2024 12 30 9, byweekno := some [1, 52, -1] } :=
   ⟨rfl, by decide, by decide, rfl, by intro x hx; simp at hx, ⟨[1, 52, -1], rfl, by decide, ⟨by decide, by decide⟩⟩,
